@@ -29,7 +29,7 @@ func coverSitesIn(l *loopInfo) []coverSite {
 		for _, ins := range b.Instrs {
 			switch x := ins.(type) {
 			case *ssa.Call:
-				if staticName(x) == "reflect.Value.Index" {
+				if n := staticName(x); n == "reflect.Value.Index" || n == "reflect.Value.Field" {
 					out = append(out, coverSite{x.Call.Args[0], x.Call.Args[1], x})
 				}
 			case *ssa.IndexAddr:
@@ -45,10 +45,16 @@ func coverSitesIn(l *loopInfo) []coverSite {
 // lengthOf: v is the length of recv: recv.Len(), len(recv), arrayLen(recv)-like helper, the
 // length recv was made with, or a value defined as one of those.
 func lengthOf(v, recv ssa.Value) bool {
+	if call, ok := v.(*ssa.Call); ok && staticName(call) == "reflect.Value.NumField" && call.Call.Args[0] == recv {
+		return true
+	}
 	if lenLike(v, recv, 0) || madeWithLenValue(recv, v) || lenOfSliceSizedBy(v, recv) {
 		return true
 	}
-	if ms, ok := recv.(*ssa.MakeSlice); ok && ms.Len == v {
+	if ms, ok := recv.(*ssa.MakeSlice); ok && (ms.Len == v || sameLen(ms.Len, v)) {
+		return true
+	}
+	if mk, ok := recv.(*ssa.Call); ok && staticName(mk) == "reflect.MakeSlice" && sameLen(mk.Call.Args[1], v) {
 		return true
 	}
 	if call, ok := v.(*ssa.Call); ok {
@@ -66,7 +72,14 @@ func lengthOf(v, recv ssa.Value) bool {
 	return false
 }
 
+// sameLen: a and b are both len(x) of the same slice value.
+func sameLen(a, b ssa.Value) bool {
+	la, lb := bnorm(a), bnorm(b)
+	return la.n.v != nil && la.n.ln && la == lb
+}
+
 var coverExceptions = map[string]string{
+	"jlib.keysMap:loop#1": "results is made with v.Len() elements and the loop ranges over v.MapKeys(), which has exactly v.Len() entries (reflect contract)",
 	"jlib.Append$1:loop#1": "appendSlice(vs, length) is only called as appendSlice(v1, len1) and appendSlice(v2, len2) with lenN = vN.Len() computed just before (the same pairing IDX relies on)",
 	"jlib.Reduce:loop#1":   "without an initial value the first member seeds the accumulator and the fold starts at the second: i is 0 or 1 accordingly",
 	"jlib.Zip:loop#2":      "$zip pairs members up to the shortest argument: the bound is the minimum of the argument lengths computed by the first loop",
